@@ -583,6 +583,17 @@ func main() {
 		var wr struct {
 			Case caseRef `json:"case"`
 		}
+		if err := json.Unmarshal(b, &wr); err == nil && wr.Case.W == nil && wr.Case.What == "torn-manifest" {
+			res.Eval("replay", true)
+			res.Eval("replay2", true)
+			if m, tc := tornManifestProbe(res, 12000); m != "" {
+				fmt.Println("replay fails:", m)
+				res.ViolateKnown(m, tc, tornManifestID)
+			} else {
+				fmt.Println("replay passes")
+			}
+			return
+		}
 		if err := json.Unmarshal(b, &wr); err != nil || wr.Case.W == nil {
 			fmt.Println("cannot parse replay:", err)
 			return
@@ -752,6 +763,16 @@ func main() {
 	}
 	close(jobs)
 	wg.Wait()
+	// directed: manifest records torn at 32 KiB block boundaries (a known finding, see mantorn.go)
+	{
+		n := 12000
+		if a.Thorough() {
+			n = 40000
+		}
+		if m, tc := tornManifestProbe(res, n); m != "" {
+			res.ViolateKnown(m, tc, tornManifestID)
+		}
+	}
 	// (K) dedicated workloads: no reopen, default manifest size (the model has neither)
 	nk, perK := 6, 14
 	if a.Thorough() {
